@@ -48,7 +48,7 @@ func genC03(r *Rand, tier, profile string) *Case {
 			}
 		}
 		ts = append(ts, tstep{t + 2, Step{K: "ackplan", C: i, L: plan}})
-		q := 1 + r.Intn(2)
+		q := r.PickInt([]int{0, 1, 1, 2, 2}) // QoS 0 subscribers share the fan-out with the others
 		ts = append(ts, tstep{t + 8, Step{K: "sub", C: i, L: []string{"r/#"}, QL: []int{q}, I: 1}})
 	}
 	t := int64(200)
@@ -126,7 +126,7 @@ func judgeRetx(w *world) {
 			judged++
 			attrs := map[string]string{"plan": strings.TrimSuffix(strings.TrimSuffix(ex.plan, "!changed"), "+norel"), "qos": fmt.Sprint(ex.qos)}
 			if strings.Contains(ex.plan, "!changed") {
-				w.o.violate("C03", "retransmission-altered", len(w.c.Steps), endMs, attrs, "subscriber %d: a retransmission of %s (id %d) carried a different topic or payload", id, ex.tag, ex.pid)
+				w.o.violate("C03", "retransmission-altered", len(w.c.Steps), endMs, attrs, "subscriber %d: a retransmission of %s (id %d) carried a different topic, payload or QoS", id, ex.tag, ex.pid)
 			}
 			// R1: gaps between transmissions of the awaited packet
 			for _, g := range ex.gaps {
@@ -265,7 +265,7 @@ func genC05(r *Rand, tier, profile string) *Case {
 				if nodes > 1 {
 					a := r.Intn(nodes)
 					b := (a + 1 + r.Intn(nodes-1)) % nodes
-					ts = append(ts, tstep{t, Step{K: "rpcmode", N: a, I: int64(b), S: r.Pick([]string{"fail", "blackhole", "lossresp", "fail"})}})
+					ts = append(ts, tstep{t, Step{K: "rpcmode", N: a, I: int64(b), S: r.Pick([]string{"fail", "blackhole", "lossresp", "fail", "disabled"})}})
 					// and lift it a little later
 					ts = append(ts, tstep{t + int64(r.Range(200, 4000)), Step{K: "rpcmode", N: a, I: int64(b), S: "ok"}})
 				}
@@ -386,7 +386,7 @@ func judgeInbound(w *world) {
 			continue
 		}
 		switch rp.Outcome {
-		case "fail", "blackhole", "dead", "peer-not-found":
+		case "fail", "blackhole", "dead", "peer-not-found", "disabled":
 			if _, has := failed[rp.Tag]; !has {
 				failed[rp.Tag] = "rpc-" + rp.Outcome
 			}
